@@ -33,6 +33,11 @@ func openBackend(a *app.App, o lsOpts) (*app.Session, func()) {
 	if o.Mode == "long-lived" {
 		return app.NewSession(a, cfg, app.LongLived), func() {}
 	}
+	if o.Mode == "kept-state" {
+		s := app.NewSession(a, cfg, app.KeptState)
+		s.FinishOnError = true
+		return s, func() {}
+	}
 	if cfg.SessionId == "" {
 		cfg.SessionId = "s1"
 	}
@@ -117,6 +122,13 @@ func lockstepEnv(a *app.App, o lsOpts, inputs []string, pick func(label string, 
 			}
 			if len(funcCalls(got.Calls)) != 0 {
 				return "external-call-while-terminated", fmt.Sprintf("%s: external functions %v called while TERMINATE is set", where, funcCalls(got.Calls)), reqs
+			}
+			if len(got.Calls) != 0 && !o.DbRes && !o.PoRes {
+				// "running nothing": not even a template or menu lookup (a render attempt) is made for a blocked request
+				return "lookup-while-terminated", fmt.Sprintf("%s: the blocked request made resource lookups %v", where, got.Calls), reqs
+			}
+			if got.FlushErr != "" {
+				return "render-attempt-while-terminated", fmt.Sprintf("%s: the blocked request reports a flush error (%s): something was rendered", where, got.FlushErr), reqs
 			}
 			if got.Out != "" {
 				return "output-while-terminated", fmt.Sprintf("%s: output %q while TERMINATE is set", where, got.Out), reqs
